@@ -1,18 +1,389 @@
-//! C18 — not built yet.
+//! C18 — the resolver honours the configured address family and upstream
+//! port.  E-NET: universes whose nameserver hosts are v4-only / v6-only / dual
+//! (every assignment), addresses learnt from hints, glue, cache or nested
+//! lookup, four protocol modes, several ports, all candidate orders; the
+//! oracle reads the exchange log.
+
+use crate::c07::{base_spec, params_from_json, step_from_json, step_to_json};
 use crate::common::*;
-use serde_json::Value;
+use crate::net::*;
+use crate::procpar::{self, JsonAcc};
+use crate::ugen::*;
+use crate::util::*;
+use dns_resolver::util::types::ProtocolMode;
+use dns_resolver::verif::transport::Proto;
+use dns_types::protocol::types::*;
+use serde_json::{json, Value};
+use std::collections::{BTreeMap, BTreeSet};
+use std::net::{IpAddr, Ipv4Addr, SocketAddr};
+use std::sync::Arc;
 
-pub fn run(_ctx: &Ctx) -> i32 {
-    eprintln!("C18: check not built");
-    2
+const MODES: [ProtocolMode; 4] = [
+    ProtocolMode::OnlyV4,
+    ProtocolMode::PreferV4,
+    ProtocolMode::PreferV6,
+    ProtocolMode::OnlyV6,
+];
+const FAMS: [Family; 3] = [Family::V4, Family::V6, Family::Dual];
+const STYLES: [NsStyle; 3] = [NsStyle::InZoneGlue, NsStyle::InParent, NsStyle::Sibling];
+
+fn universes(tier: Tier) -> Vec<GenParams> {
+    let mut out = Vec::new();
+    // depth 1: 3 families^3 (root, level 1, sibling) x 3 styles x additional
+    // depth 2: 3^4 x 9 styles
+    for depth in 1..=2usize {
+        let nf = depth + 2;
+        for fcode in 0..3usize.pow(nf as u32) {
+            let mut fams = Vec::new();
+            let mut c = fcode;
+            for _ in 0..nf {
+                fams.push(FAMS[c % 3]);
+                c /= 3;
+            }
+            for scode in 0..3usize.pow(depth as u32) {
+                let mut styles = Vec::new();
+                let mut c = scode;
+                for _ in 0..depth {
+                    styles.push(STYLES[c % 3]);
+                    c /= 3;
+                }
+                if tier == Tier::Quick && depth == 2 && (fcode + scode) % 3 != 0 {
+                    continue;
+                }
+                for additional in [true, false] {
+                    if tier == Tier::Quick && !additional && (fcode % 2 == 1) {
+                        continue;
+                    }
+                    let mut p = GenParams::simple(depth, NsStyle::InZoneGlue, 1);
+                    p.styles = styles.clone();
+                    p.families = fams.clone();
+                    p.send_additional = additional;
+                    out.push(p);
+                }
+            }
+        }
+    }
+    if tier == Tier::Thorough {
+        // two nameservers per zone with different families are covered by Dual
+        // hosts; add a few two-nameserver universes for the order dimension
+        for fcode in 0..27 {
+            let mut p = GenParams::simple(1, NsStyle::InParent, 2);
+            p.families = vec![FAMS[fcode % 3], FAMS[(fcode / 3) % 3], FAMS[(fcode / 9) % 3]];
+            out.push(p);
+        }
+    }
+    out
 }
 
-pub fn replay(_ctx: &Ctx, _v: &Value) -> i32 {
-    eprintln!("C18: check not built");
-    2
+fn is_pref(mode: ProtocolMode, a: &IpAddr) -> bool {
+    match mode {
+        ProtocolMode::OnlyV4 | ProtocolMode::PreferV4 => a.is_ipv4(),
+        ProtocolMode::OnlyV6 | ProtocolMode::PreferV6 => a.is_ipv6(),
+    }
 }
 
-/// Entry point for `vcheck worker C18 <args...>` (child-process mode).
-pub fn worker(_args: &[String]) -> i32 {
-    2
+/// host names of the universe by address
+fn hosts_by_addr(u: &Universe) -> BTreeMap<IpAddr, BTreeSet<DomainName>> {
+    let mut m: BTreeMap<IpAddr, BTreeSet<DomainName>> = BTreeMap::new();
+    for z in &u.zones {
+        for r in &z.recs {
+            match &r.data {
+                RecordTypeWithData::A { address } => {
+                    m.entry(IpAddr::V4(*address)).or_default().insert(r.owner.clone());
+                }
+                RecordTypeWithData::AAAA { address } => {
+                    m.entry(IpAddr::V6(*address)).or_default().insert(r.owner.clone());
+                }
+                _ => {}
+            }
+        }
+    }
+    m
+}
+
+fn judge(
+    u: &Universe,
+    mode: ProtocolMode,
+    port: u16,
+    forwarder: Option<SocketAddr>,
+    user_questions: &[Question],
+    res: &RunResult,
+) -> Vec<(&'static str, String)> {
+    let mut out = Vec::new();
+    let by_addr = hosts_by_addr(u);
+    // addresses held locally (hints zone)
+    let mut local: Vec<(DomainName, IpAddr)> = Vec::new();
+    for (n, addrs) in &u.hints {
+        for a in addrs {
+            local.push((n.clone(), *a));
+        }
+    }
+    let ns_hosts: BTreeSet<DomainName> = u
+        .zones
+        .iter()
+        .flat_map(|z| z.recs.iter())
+        .filter_map(|r| match &r.data {
+            RecordTypeWithData::NS { nsdname } => Some(nsdname.clone()),
+            _ => None,
+        })
+        .collect();
+    let mut first_lookup: BTreeMap<(usize, DomainName), RecordType> = BTreeMap::new();
+    for e in &res.log {
+        if let Some(f) = forwarder {
+            if e.addr != f {
+                out.push(("not-the-forwarder", format!("exchange #{} went to {} instead of the forwarder {}", e.index, e.addr, f)));
+            }
+            continue;
+        }
+        if e.addr.port() != port {
+            out.push(("wrong-port", format!("exchange #{} went to port {} instead of {}", e.index, e.addr.port(), port)));
+        }
+        let ip = e.addr.ip();
+        match mode {
+            ProtocolMode::OnlyV4 if !ip.is_ipv4() => out.push(("family", format!("only-v4: exchange #{} went to {}", e.index, e.addr))),
+            ProtocolMode::OnlyV6 if !ip.is_ipv6() => out.push(("family", format!("only-v6: exchange #{} went to {}", e.index, e.addr))),
+            ProtocolMode::PreferV4 | ProtocolMode::PreferV6 if !is_pref(mode, &ip) => {
+                // no preferred-family address of this host may be held
+                if let Some(hosts) = by_addr.get(&ip) {
+                    for h in hosts {
+                        let held_pref = e
+                            .held_addrs
+                            .iter()
+                            .chain(local.iter())
+                            .any(|(n, a)| n == h && is_pref(mode, a));
+                        if held_pref {
+                            out.push((
+                                "preferred-address-ignored",
+                                format!(
+                                    "{mode}: exchange #{} went to {} although an address of the preferred family was held for {}",
+                                    e.index,
+                                    e.addr,
+                                    show_name(h)
+                                ),
+                            ));
+                        }
+                    }
+                }
+            }
+            _ => {}
+        }
+        // order of address lookups for nameserver hosts
+        if e.proto == Proto::Udp {
+            if let Some(q) = &e.question {
+                let is_user = user_questions.get(e.step).map(|uq| uq == q).unwrap_or(false);
+                if !is_user && ns_hosts.contains(&q.name) {
+                    if let QueryType::Record(t @ (RecordType::A | RecordType::AAAA)) = q.qtype {
+                        first_lookup.entry((e.step, q.name.clone())).or_insert(t);
+                    }
+                }
+            }
+        }
+    }
+    if forwarder.is_none() {
+        for ((step, host), t) in &first_lookup {
+            let want = match mode {
+                ProtocolMode::OnlyV4 | ProtocolMode::PreferV4 => RecordType::A,
+                _ => RecordType::AAAA,
+            };
+            if *t != want {
+                out.push((
+                    "lookup-order",
+                    format!("{mode}: the first address question for nameserver {} (step {step}) asked for {t}", show_name(host)),
+                ));
+            }
+        }
+    }
+    for a in &res.asks {
+        if let Outcome::Panic(m) = &a.outcome {
+            out.push(("panic", format!("panicked: {m}")));
+        }
+    }
+    out
+}
+
+fn replay_json(p: &GenParams, mode: ProtocolMode, port: u16, fwd: bool, steps: &[Step], choices: &[usize]) -> Value {
+    json!({
+        "kind": "family",
+        "universe": {
+            "depth": p.depth,
+            "styles": p.styles.iter().map(|s| format!("{s:?}")).collect::<Vec<_>>(),
+            "ns_count": p.ns_count,
+            "send_additional": p.send_additional,
+            "chase_in_reply": p.chase_in_reply,
+            "families": p.families.iter().map(|f| format!("{f:?}")).collect::<Vec<_>>(),
+        },
+        "mode": format!("{mode}"),
+        "port": port,
+        "forwarding": fwd,
+        "steps": steps.iter().map(step_to_json).collect::<Vec<_>>(),
+        "choices": choices,
+    })
+}
+
+fn fwd_for(p: &GenParams, port: u16) -> SocketAddr {
+    let _ = p;
+    SocketAddr::new(IpAddr::V4(Ipv4Addr::new(10, 9, 9, 9)), port)
+}
+
+fn make_spec(u: &Arc<Universe>, p: &GenParams, mode: ProtocolMode, port: u16, fwd: bool, steps: &[Step]) -> RunSpec {
+    let mut spec = base_spec(u.clone(), steps.to_vec());
+    spec.protocol_mode = mode;
+    spec.port = port;
+    spec.record_held = true;
+    if fwd {
+        spec.mode = Mode::Forwarding(fwd_for(p, port));
+    }
+    spec
+}
+
+fn run_item(tier: Tier, params: &[GenParams], i: usize, acc: &mut JsonAcc) {
+    let p = &params[i];
+    let u = Arc::new(build(p));
+    let leaf = level_apex(p.depth);
+    let q_www = question(&prepend(b"www", &leaf), qt(RecordType::A));
+    let q_ext = question(&prepend(b"ext", &leaf), qt(RecordType::A));
+    let q_missing = question(&prepend(b"missing", &leaf), qt(RecordType::TXT));
+    let q_nsv6 = question(&ns_hosts(p, p.depth)[0], qt(RecordType::AAAA));
+    let histories: Vec<Vec<Step>> = vec![
+        vec![Step::Ask(q_www.clone())],
+        vec![Step::Ask(q_ext.clone())],
+        vec![Step::Ask(q_missing.clone()), Step::Ask(q_www.clone())],
+        vec![Step::Ask(q_nsv6.clone()), Step::Ask(q_www.clone())],
+        vec![Step::Ask(q_www.clone()), Step::Advance(std::time::Duration::from_secs(301)), Step::Ask(q_ext.clone())],
+    ];
+    for (hi, steps) in histories.iter().enumerate() {
+        let user_qs: Vec<Question> = steps
+            .iter()
+            .filter_map(|s| match s {
+                Step::Ask(q) => Some(q.clone()),
+                _ => None,
+            })
+            .collect();
+        for mode in MODES {
+            let ports: Vec<u16> = if hi == 0 { vec![53, 5353, 1, 65535] } else { vec![53] };
+            for port in ports {
+                for fwd in [false, true] {
+                    if fwd && (hi > 1 || mode != ProtocolMode::OnlyV4 && tier == Tier::Quick) {
+                        continue;
+                    }
+                    let spec = make_spec(&u, p, mode, port, fwd, steps);
+                    let mut stats = ExploreStats::default();
+                    if acc.trace {
+                        let (p2, s2) = (p.clone(), steps.clone());
+                        stats.pre = Some(Box::new(move |prefix: &[usize]| {
+                            println!("EXEC {}", replay_json(&p2, mode, port, fwd, &s2, prefix));
+                            use std::io::Write;
+                            let _ = std::io::stdout().flush();
+                        }));
+                    }
+                    let mut visit = |res: &RunResult, choices: &[usize]| {
+                        let forwarder = if fwd { Some(fwd_for(p, port)) } else { None };
+                        let findings = judge(&u, mode, port, forwarder, &user_qs, res);
+                        let v4 = res.log.iter().filter(|e| e.addr.is_ipv4()).count();
+                        let v6 = res.log.len() - v4;
+                        let answered = res.asks.iter().filter(|a| matches!(a.outcome, Outcome::Ok(_))).count();
+                        acc.hist(
+                            &format!(
+                                "{mode}{}: {} of {} questions answered, exchanges v4={} v6={}",
+                                if fwd { " (forwarding)" } else { "" },
+                                answered,
+                                res.asks.len(),
+                                if v4 > 0 { ">0" } else { "0" },
+                                if v6 > 0 { ">0" } else { "0" }
+                            ),
+                            1,
+                        );
+                        if p.families.iter().any(|f| *f != Family::V4) && !res.log.is_empty() {
+                            acc.count("nontrivial", 1);
+                        }
+                        acc.states.insert(fnv64(
+                            format!("{}|{}|{}|{:?}", p.describe(), mode, port, res.log.iter().map(|e| (e.addr, e.question.as_ref().map(|q| (q.name.clone(), u16::from(q.qtype))))).collect::<Vec<_>>()).as_bytes(),
+                        ));
+                        for (clause, msg) in findings {
+                            acc.violate(
+                                clause,
+                                format!("universe [{}] mode {mode} port {port} fwd={fwd}: {msg} :: log {}", p.describe(), show_log(&res.log)),
+                                replay_json(p, mode, port, fwd, steps, choices),
+                                None,
+                            );
+                        }
+                        if v4 > 0 && v6 > 0 {
+                            acc.sample(json!({
+                                "universe": p.describe(),
+                                "mode": format!("{mode}"),
+                                "exchanges": show_log(&res.log),
+                            }));
+                        }
+                    };
+                    explore(&spec, 0, 2048, &mut stats, &mut visit);
+                    acc.count("executions", stats.executions);
+                    acc.count("exchanges", stats.exchanges + stats.choice_points);
+                    if stats.capped {
+                        acc.capped = true;
+                    }
+                }
+            }
+        }
+    }
+}
+
+pub fn run(ctx: &Ctx) -> i32 {
+    let params = universes(ctx.tier);
+    let (acc, crashes) = procpar::parent(ctx, params.len(), ctx.tier.pick(40.0, 570.0), &[]);
+    let mut report = Report::new();
+    let c = |k: &str| acc.counters.get(k).copied().unwrap_or(0);
+    report.evaluations = c("executions");
+    report.transitions = c("exchanges");
+    report.traces_validated = report.evaluations;
+    report.distinct_nontrivial = c("nontrivial");
+    procpar::into_report(acc, crashes, &mut report);
+    report.rule = "every universe of depth 1..2 in which the root, every level and the sibling zone are served by v4-only / v6-only / dual hosts (every assignment) x nameserver naming style per level (addresses from hints, glue, the parent zone, a nested lookup) x additional data on/off x 5 question histories (incl. cache left by an earlier question and a re-resolution after expiry) x 4 protocol modes x ports {53,5353,1,65535} x forwarding on/off x every candidate order; non-trivial = executions with at least one exchange in a universe that has a non-v4-only host (measured); states = distinct (universe, mode, port, exchange sequence)".into();
+    report.bounds = json!({"universes": params.len(), "deviation_bound": 0});
+    report.assumptions = vec![
+        "`holds an address` = an unexpired A/AAAA record for the host name in the cache at the moment the exchange starts (recorded from inside the transport hook) or in the root hints zone".into(),
+        "one address per family per host".into(),
+        "the order-of-lookup clause is judged on nested address questions for nameserver hosts (not on the user's own question)".into(),
+    ];
+    finish(ctx, report)
+}
+
+fn replay_inner(ctx: &Ctx, v: &Value) -> i32 {
+    let p = params_from_json(&v["universe"]);
+    let u = Arc::new(build(&p));
+    let mode: ProtocolMode = v["mode"].as_str().unwrap_or("only-v4").parse().unwrap_or(ProtocolMode::OnlyV4);
+    let port = v["port"].as_u64().unwrap_or(53) as u16;
+    let fwd = v["forwarding"].as_bool().unwrap_or(false);
+    let steps: Vec<Step> = v["steps"].as_array().cloned().unwrap_or_default().iter().filter_map(step_from_json).collect();
+    let choices: Vec<usize> = v["choices"].as_array().cloned().unwrap_or_default().iter().filter_map(|c| c.as_u64().map(|c| c as usize)).collect();
+    let spec = make_spec(&u, &p, mode, port, fwd, &steps);
+    let res = run_once(&spec, &choices);
+    let user_qs: Vec<Question> = steps.iter().filter_map(|s| match s { Step::Ask(q) => Some(q.clone()), _ => None }).collect();
+    println!("universe: {}", u.describe());
+    println!("mode {mode} port {port} forwarding {fwd}");
+    println!("exchanges: {}", show_log(&res.log));
+    let findings = judge(&u, mode, port, if fwd { Some(fwd_for(&p, port)) } else { None }, &user_qs, &res);
+    for (c, m) in &findings {
+        println!("  finding [{c}]: {m}");
+    }
+    if findings.is_empty() {
+        println!("replay: property holds on this case");
+        0
+    } else {
+        println!("VIOLATION property={} replay=(replayed case)", ctx.id);
+        1
+    }
+}
+
+pub fn replay(ctx: &Ctx, v: &Value) -> i32 {
+    procpar::replay_in_child(ctx, v)
+}
+
+pub fn worker(args: &[String]) -> i32 {
+    if let Some(v) = procpar::replay_arg(args) {
+        let ctx = Ctx { id: "C18", tier: Tier::Quick, seed: 0, start: std::time::Instant::now(), threads: 1 };
+        return replay_inner(&ctx, &v);
+    }
+    let tier = if args.first().map(String::as_str) == Some("thorough") { Tier::Thorough } else { Tier::Quick };
+    let params = universes(tier);
+    procpar::child_main(args, move |tier, i, acc| run_item(tier, &params, i, acc))
 }
